@@ -341,6 +341,7 @@ impl Ev {
                 Label::InfGet => 27,
                 Label::InfSet => 28,
                 Label::InfDefault => 29,
+                Label::Yield => 31,
             },
             EvKind::InfRead(_) => 30,
             EvKind::Api(s) => 40 + (s.split(' ').next().map(|w| w.len()).unwrap_or(0) as u64),
@@ -536,6 +537,8 @@ fn event_hook(ev: Label) {
         }
     }
     match ev {
+        // pure scheduling point: not logged (a hand-off, if any, is)
+        Label::Yield => yield_point(),
         Label::InfGet | Label::InfSet | Label::InfDefault => {
             // the accessor is a yield point: another simulated thread may run
             // between the call and the atomic access it announces
